@@ -551,6 +551,418 @@ Proof.
   apply lk_run_inv_partial; try assumption. reflexivity.
 Qed.
 
+(** * the account kind: conversion to a plain account and back *)
+Lemma lk_sched_locked_eq_max a t : lk_sched_locked a t = Z.max (lk_locked_up a t) (lk_unvested a t).
+Proof. unfold lk_sched_locked, lk_locked_up, lk_unvested, lk_unlocked_vested. lia. Qed.
+
+Lemma lk_sched_locked_nonneg a t : lk_wf_b a = true -> 0 <= lk_sched_locked a t.
+Proof.
+  intros H. pose proof (lk_vested_bounds a t H). pose proof (lk_unlocked_bounds a t H).
+  unfold lk_sched_locked, lk_unlocked_vested. lia.
+Qed.
+
+Lemma lk_sched_locked_antitone a t1 t2 : lk_wf_b a = true -> t1 <= t2 -> lk_sched_locked a t2 <= lk_sched_locked a t1.
+Proof.
+  intros H Ht. pose proof (lk_vested_mono a t1 t2 H Ht). pose proof (lk_unlocked_mono a t1 t2 H Ht).
+  unfold lk_sched_locked, lk_unlocked_vested. lia.
+Qed.
+
+(** the bank-facing locked amount never exceeds what the schedule locks *)
+Lemma lk_locked_le_sched a t : lk_wf_b a = true -> 0 <= lk_df a + lk_dv a -> 0 <= lk_locked_coins a t <= lk_sched_locked a t.
+Proof.
+  intros H Hd. rewrite (lk_locked_eq_max_wf a t H). pose proof (lk_vested_bounds a t H). pose proof (lk_unlocked_bounds a t H).
+  unfold lk_sched_locked, lk_unvested, lk_unlocked_vested. lia.
+Qed.
+
+Lemma lk_convert_guard_schedule a t :
+  lk_convert_guard LkGuardSchedule a t = true <-> lk_unvested a t = 0 /\ lk_locked_up a t = 0.
+Proof. unfold lk_convert_guard. rewrite andb_true_iff, !Z.eqb_eq. tauto. Qed.
+
+Lemma lk_guard_sched_locked a t : lk_unvested a t = 0 -> lk_locked_up a t = 0 -> lk_sched_locked a t = 0.
+Proof. rewrite lk_sched_locked_eq_max. lia. Qed.
+
+(** once the schedule locks nothing it never locks anything again, whatever is delegated *)
+Lemma lk_sched_zero_forever a t t' : lk_wf_b a = true -> lk_sched_locked a t = 0 -> t <= t' ->
+  lk_sched_locked a t' = 0 /\ lk_unvested a t' = 0 /\ lk_locked_up a t' = 0 /\
+  (0 <= lk_df a + lk_dv a -> lk_locked_coins a t' = 0).
+Proof.
+  intros H H0 Ht. pose proof (lk_sched_locked_antitone a t t' H Ht). pose proof (lk_sched_locked_nonneg a t' H).
+  assert (Hz : lk_sched_locked a t' = 0) by lia. split; [exact Hz|].
+  pose proof (lk_vested_bounds a t' H). pose proof (lk_unlocked_bounds a t' H).
+  rewrite lk_sched_locked_eq_max in Hz. unfold lk_locked_up, lk_unvested in *.
+  split; [lia|]. split; [lia|]. intros Hd. pose proof (lk_locked_le_sched a t' H Hd) as Hl.
+  rewrite lk_sched_locked_eq_max in Hl. unfold lk_locked_up, lk_unvested in Hl. lia.
+Qed.
+
+Definition lkx_wfs (s : lkx_state) : Prop := lk_wfs (lx_s s).
+(** a plain account: nothing of the discarded schedule is locked any more *)
+Definition lkx_plain_ok (c : lk_state) : Prop := 0 <= lk_bal c /\ lk_sched_locked (lk_a c) (lk_now c) = 0.
+Definition lkx_inv (s : lkx_state) : Prop := if lx_vesting s then lk_inv (lx_s s) else lkx_plain_ok (lx_s s).
+Definition lkx_safe (s : lkx_state) : Prop := if lx_vesting s then lk_safe (lx_s s) else 0 <= lk_bal (lx_s s).
+Definition lkx_tracked (s : lkx_state) : Prop := if lx_vesting s then lk_tracked_le_actual (lx_s s) else True.
+
+Lemma lk_plain_step_fail s o s' r : lk_plain_step s o = (s', r) -> r <> LK_OK -> s' = s.
+Proof.
+  destruct o; cbn [lk_plain_step].
+  - destruct (x <? 0); inversion 1; subst; congruence.
+  - destruct (x <=? 0); [inversion 1; congruence|]. destruct (_ <? _); inversion 1; subst; congruence.
+  - destruct (negb _); [inversion 1; congruence|]. destruct (x <=? 0); [inversion 1; congruence|].
+    destruct (_ <? _); inversion 1; subst; congruence.
+  - unfold lk_undelegate. destruct (x <=? 0); inversion 1; subst; congruence.
+  - destruct (_ || _); inversion 1; subst; congruence.
+  - unfold lk_slash. destruct (_ || _); inversion 1; subst; congruence.
+  - destruct (dt <? 0); inversion 1; subst; congruence.
+  - inversion 1; congruence.
+  - inversion 1; congruence.
+Qed.
+
+Lemma lk_into_vesting_ok s g st e l v s' : lk_into_vesting s g st e l v = (s', LK_OK) ->
+  let a' := mklka g l v st e 0 (if lk_bond s then lk_deleg s + lk_unb s else 0) in
+  0 <= g /\ lk_wf_b a' = true /\ s' = mklk a' (lk_bal s + g) (lk_deleg s) (lk_unb s) (lk_now s) (lk_bond s).
+Proof.
+  unfold lk_into_vesting. cbv zeta. destruct (Z.ltb_spec g 0); [discriminate|].
+  destruct (lk_wf_b _) eqn:Hwf; cbn [negb]; [|discriminate]. intros Heq; inversion Heq; subst. repeat split; assumption.
+Qed.
+
+Lemma lk_into_vesting_fail s g st e l v s' r : lk_into_vesting s g st e l v = (s', r) -> r <> LK_OK -> s' = s.
+Proof.
+  unfold lk_into_vesting. cbv zeta. destruct (g <? 0); [inversion 1; congruence|].
+  destruct (negb _); inversion 1; subst; congruence.
+Qed.
+
+Lemma lkx_eta s : mklkx (lx_s s) (lx_vesting s) (lx_funder s) = s.
+Proof. destruct s; reflexivity. Qed.
+
+Lemma lkx_step_g_fail gd s o s' r : lkx_step_g gd s o = (s', r) -> r <> LK_OK -> s' = s.
+Proof.
+  destruct s as [c vk f]. destruct o as [o sg| |sg m g st e l v|sg nw]; cbn [lkx_step_g lx_s lx_vesting lx_funder].
+  - destruct vk.
+    + destruct (lk_needs_funder o && negb (sg =? f)%N); [inversion 1; congruence|].
+      destruct (lk_step c o) as [c' r'] eqn:E. cbn [fst snd]. inversion 1; subst. intros Hr.
+      rewrite (lk_step_fail _ _ _ _ E Hr). reflexivity.
+    + destruct (lk_plain_step c o) as [c' r'] eqn:E. cbn [fst snd]. inversion 1; subst. intros Hr.
+      rewrite (lk_plain_step_fail _ _ _ _ E Hr). reflexivity.
+  - destruct vk; cbn [negb]; [|inversion 1; congruence]. destruct (lk_convert_guard _ _ _); inversion 1; subst; congruence.
+  - destruct vk.
+    + destruct m; cbn [negb]; [|inversion 1; congruence]. destruct (negb (sg =? f)%N); [inversion 1; congruence|].
+      destruct (lk_add_grant c g st e l v) as [c' r'] eqn:E. cbn [fst snd]. inversion 1; subst. intros Hr.
+      assert (E' : lk_step c (LkAddGrant g st e l v) = (c', r)) by exact E.
+      rewrite (lk_step_fail _ _ _ _ E' Hr). reflexivity.
+    + destruct (lk_into_vesting c g st e l v) as [c' r'] eqn:E. cbn [fst snd].
+      destruct (N.eqb_spec r' LK_OK); inversion 1; subst; congruence.
+  - destruct vk; cbn [negb]; [|inversion 1; congruence]. destruct (negb (sg =? f)%N); [inversion 1; congruence|]. destruct (sg =? nw)%N; inversion 1; subst; congruence.
+Qed.
+
+(** a successful MsgConvertVestingAccount: the account was a vesting account whose SCHEDULE has nothing
+    unvested and nothing locked up at that block time; only the kind changes *)
+Lemma lkx_convert_ok s s' : lkx_step s LxConvert = (s', LK_OK) ->
+  lx_vesting s = true /\ lk_unvested (lk_a (lx_s s)) (lk_now (lx_s s)) = 0 /\ lk_locked_up (lk_a (lx_s s)) (lk_now (lx_s s)) = 0 /\
+  lk_sched_locked (lk_a (lx_s s)) (lk_now (lx_s s)) = 0 /\ s' = mklkx (lx_s s) false (lx_funder s).
+Proof.
+  unfold lkx_step. cbn [lkx_step_g]. destruct (lx_vesting s); cbn [negb]; [|discriminate].
+  destruct (lk_convert_guard _ _ _) eqn:G; [|discriminate]. apply lk_convert_guard_schedule in G as [G1 G2].
+  intros Heq; inversion Heq; subst. repeat split; try assumption. apply lk_guard_sched_locked; assumption.
+Qed.
+
+Lemma lk_plain_step_wfs s o : lk_wfs s -> lk_wfs (fst (lk_plain_step s o)).
+Proof.
+  intros Hw. destruct (lk_plain_step s o) as [s' r] eqn:E. cbn [fst].
+  destruct (N.eq_dec r LK_OK) as [->|Hr]; [|rewrite (lk_plain_step_fail _ _ _ _ E Hr); exact Hw].
+  destruct o; cbn [lk_plain_step] in E; try discriminate E.
+  - exact (eq_ind _ (fun p => lk_wfs (fst p)) (lk_step_wfs s (LkReceive x) Hw) _ E).
+  - destruct (x <=? 0); [discriminate|]. destruct (_ <? _); inversion E; subst. lk_open s. exact Hw.
+  - destruct (negb _); [discriminate|]. destruct (Z.leb_spec x 0); [discriminate|]. destruct (_ <? _); inversion E; subst.
+    lk_open s. lk_simp. destruct Hw as (? & ? & ? & ? & ?). repeat split; try assumption; lia.
+  - exact (eq_ind _ (fun p => lk_wfs (fst p)) (lk_step_wfs s (LkUndelegate x) Hw) _ E).
+  - destruct (Z.leb_spec y 0); cbn [orb] in E; [discriminate|]. destruct (Z.ltb_spec (lk_unb s) y); inversion E; subst.
+    lk_open s. lk_simp. destruct Hw as (? & ? & ? & ? & ?). repeat split; try assumption; lia.
+  - exact (eq_ind _ (fun p => lk_wfs (fst p)) (lk_step_wfs s (LkSlash d' u') Hw) _ E).
+  - exact (eq_ind _ (fun p => lk_wfs (fst p)) (lk_step_wfs s (LkAdvance dt) Hw) _ E).
+Qed.
+
+Lemma lkx_step_wfs s o : lkx_wfs s -> lkx_wfs (fst (lkx_step s o)).
+Proof.
+  intros Hw. destruct (lkx_step s o) as [s' r] eqn:E. cbn [fst].
+  destruct (N.eq_dec r LK_OK) as [->|Hr]; [|rewrite (lkx_step_g_fail _ _ _ _ _ E Hr); exact Hw].
+  unfold lkx_wfs in *. destruct s as [c vk f]. cbn [lx_s] in Hw. unfold lkx_step in E.
+  destruct o as [o sg| |sg m g st e l v|sg nw]; cbn [lkx_step_g lx_s lx_vesting lx_funder] in E.
+  - destruct vk.
+    + destruct (lk_needs_funder o && negb (sg =? f)%N); [discriminate|]. inversion E; subst. cbn [lx_s]. apply lk_step_wfs, Hw.
+    + inversion E; subst. cbn [lx_s]. apply lk_plain_step_wfs, Hw.
+  - destruct vk; cbn [negb] in E; [|discriminate]. destruct (lk_convert_guard _ _ _); inversion E; subst. exact Hw.
+  - destruct vk.
+    + destruct m; cbn [negb] in E; [|discriminate]. destruct (negb (sg =? f)%N); [discriminate|]. inversion E; subst. cbn [lx_s].
+      exact (lk_step_wfs c (LkAddGrant g st e l v) Hw).
+    + destruct (lk_into_vesting c g st e l v) as [c' r'] eqn:E'. cbn [fst snd] in E.
+      destruct (N.eqb_spec r' LK_OK); [|inversion E; congruence]. subst r'. inversion E; subst. cbn [lx_s].
+      apply lk_into_vesting_ok in E' as (Hg & Hwf & ->). destruct Hw as (_ & _ & _ & Hd & Hu).
+      unfold lk_wfs. lk_proj. repeat split; try assumption; try lia. destruct (lk_bond c); lia.
+  - destruct vk; cbn [negb] in E; [|discriminate]. destruct (negb (sg =? f)%N); [discriminate|]. destruct (sg =? nw)%N; inversion E; subst. exact Hw.
+Qed.
+
+Lemma lk_plain_step_ok_inv s o : lk_wfs s -> lkx_plain_ok s -> lkx_plain_ok (fst (lk_plain_step s o)).
+Proof.
+  intros Hw [Hb Hz]. destruct (lk_plain_step s o) as [s' r] eqn:E. cbn [fst].
+  destruct (N.eq_dec r LK_OK) as [->|Hr]; [|rewrite (lk_plain_step_fail _ _ _ _ E Hr); split; assumption].
+  unfold lkx_plain_ok. destruct o; cbn [lk_plain_step] in E; try discriminate E.
+  - destruct (Z.ltb_spec x 0); inversion E; subst. lk_open s. lk_proj. split; [lia|exact Hz].
+  - destruct (x <=? 0); [discriminate|]. destruct (Z.ltb_spec (lk_bal s) x); inversion E; subst. lk_open s. lk_proj. split; [lia|exact Hz].
+  - destruct (negb _); [discriminate|]. destruct (x <=? 0); [discriminate|]. destruct (Z.ltb_spec (lk_bal s) x); inversion E; subst.
+    lk_open s. lk_proj. split; [lia|exact Hz].
+  - apply lk_undelegate_ok in E as (_ & ->). lk_open s. lk_proj. split; assumption.
+  - destruct (Z.leb_spec y 0); cbn [orb] in E; [discriminate|]. destruct (_ <? _); inversion E; subst. lk_open s. lk_proj. split; [lia|exact Hz].
+  - apply lk_slash_ok in E as (_ & _ & _ & ->). lk_open s. lk_proj. split; assumption.
+  - destruct (Z.ltb_spec dt 0); inversion E; subst. destruct Hw as (Hwf & _).
+    destruct (lk_sched_zero_forever _ _ (lk_now s + dt) Hwf Hz ltac:(lia)) as (Hz' & _). lk_open s. lk_proj. split; assumption.
+Qed.
+
+(** "balance >= locked" across the account-type operations: a vesting account keeps [lk_inv], a
+    converted account keeps "the discarded schedule locks nothing" *)
+Definition lkx_is_grant (o : lkx_op) : bool :=
+  match o with LxBase o _ => lk_is_grant o | LxConvertInto _ _ _ _ _ _ _ => true | _ => false end.
+Definition lkx_is_slash (o : lkx_op) : bool := match o with LxBase o _ => lk_is_slash o | _ => false end.
+
+Lemma lkx_step_inv s o : lkx_wfs s -> lkx_inv s -> (lkx_is_grant o = true -> lkx_tracked s) -> lkx_inv (fst (lkx_step s o)).
+Proof.
+  intros Hw Hi Ht. destruct (lkx_step s o) as [s' r] eqn:E. cbn [fst].
+  destruct (N.eq_dec r LK_OK) as [->|Hr]; [|rewrite (lkx_step_g_fail _ _ _ _ _ E Hr); exact Hi].
+  destruct o as [o sg| |sg m g st e l v|sg nw].
+  - destruct s as [c vk f]. unfold lkx_wfs, lkx_inv, lkx_tracked, lkx_step in *. cbn [lkx_step_g lx_s lx_vesting lx_funder lkx_is_grant] in *.
+    destruct vk.
+    + destruct (lk_needs_funder o && negb (sg =? f)%N); [discriminate|]. inversion E; subst. cbn [lx_s lx_vesting].
+      apply lk_step_inv; assumption.
+    + inversion E; subst. cbn [lx_s lx_vesting]. apply lk_plain_step_ok_inv; assumption.
+  - apply lkx_convert_ok in E as (Hv & Hu & Hl & Hz & ->). unfold lkx_wfs, lkx_inv in *. rewrite Hv in Hi. cbn [lx_s lx_vesting].
+    destruct Hw as (Hwf & Hdf & Hdv & _). pose proof (lk_locked_le_sched _ (lk_now (lx_s s)) Hwf ltac:(lia)). unfold lk_inv in Hi.
+    split; [lia|exact Hz].
+  - destruct s as [c vk f]. unfold lkx_wfs, lkx_inv, lkx_tracked, lkx_step in *. cbn [lkx_step_g lx_s lx_vesting lx_funder lkx_is_grant] in *.
+    destruct vk.
+    + destruct m; cbn [negb] in E; [|discriminate]. destruct (negb (sg =? f)%N); [discriminate|]. inversion E; subst. cbn [lx_s lx_vesting].
+      exact (lk_step_inv c (LkAddGrant g st e l v) Hw Hi Ht).
+    + destruct (lk_into_vesting c g st e l v) as [c' r'] eqn:E'. cbn [fst snd] in E.
+      destruct (N.eqb_spec r' LK_OK); [|inversion E; congruence]. subst r'. inversion E; subst. cbn [lx_s lx_vesting].
+      apply lk_into_vesting_ok in E' as (Hg & Hwf & ->). destruct Hw as (_ & _ & _ & Hd & Hu). destruct Hi as [Hb _].
+      unfold lk_inv. lk_proj.
+      match goal with |- lk_locked_coins ?A ?T <= _ => pose proof (lk_locked_le_orig A T Hwf) as Hl end. lk_proj.
+      assert (0 <= 0 + (if lk_bond c then lk_deleg c + lk_unb c else 0)) by (destruct (lk_bond c); lia).
+      specialize (Hl ltac:(lia)). lia.
+  - destruct s as [c vk f]. unfold lkx_inv, lkx_step in *. cbn [lkx_step_g lx_s lx_vesting lx_funder] in *.
+    destruct vk; cbn [negb] in E; [|discriminate]. destruct (negb (sg =? f)%N); [discriminate|]. destruct (sg =? nw)%N; inversion E; subst. exact Hi.
+Qed.
+
+(** "unvested coins are never delegated" across the account-type operations *)
+Lemma lkx_step_safe s o : lkx_wfs s -> lkx_safe s -> lkx_safe (fst (lkx_step s o)).
+Proof.
+  intros Hw Hs. destruct (lkx_step s o) as [s' r] eqn:E. cbn [fst].
+  destruct (N.eq_dec r LK_OK) as [->|Hr]; [|rewrite (lkx_step_g_fail _ _ _ _ _ E Hr); exact Hs].
+  destruct s as [c vk f]. unfold lkx_wfs, lkx_safe, lkx_step in *.
+  destruct o as [o sg| |sg m g st e l v|sg nw]; cbn [lkx_step_g lx_s lx_vesting lx_funder] in *.
+  - destruct vk.
+    + destruct (lk_needs_funder o && negb (sg =? f)%N); [discriminate|]. inversion E; subst. cbn [lx_s lx_vesting].
+      apply lk_step_safe; assumption.
+    + inversion E; subst. cbn [lx_s lx_vesting].
+      destruct (lk_plain_step c o) as [c' r'] eqn:E'. cbn [fst snd] in *. subst r'.
+      destruct o; cbn [lk_plain_step] in E'; try discriminate E'.
+      * destruct (Z.ltb_spec x 0); inversion E'; subst. lk_open c. lk_proj. lia.
+      * destruct (x <=? 0); [discriminate|]. destruct (Z.ltb_spec (lk_bal c) x); inversion E'; subst. lk_open c. lk_proj. lia.
+      * destruct (negb _); [discriminate|]. destruct (x <=? 0); [discriminate|]. destruct (Z.ltb_spec (lk_bal c) x); inversion E'; subst.
+        lk_open c. lk_proj. lia.
+      * apply lk_undelegate_ok in E' as (_ & ->). lk_open c. lk_proj. exact Hs.
+      * destruct (Z.leb_spec y 0); cbn [orb] in E'; [discriminate|]. destruct (_ <? _); inversion E'; subst. lk_open c. lk_proj. lia.
+      * apply lk_slash_ok in E' as (_ & _ & _ & ->). lk_open c. lk_proj. exact Hs.
+      * destruct (dt <? 0); inversion E'; subst. lk_open c. lk_proj. exact Hs.
+  - destruct vk; cbn [negb] in E; [|discriminate]. destruct (lk_convert_guard _ _ _); inversion E; subst. cbn [lx_s lx_vesting].
+    destruct Hw as (Hwf & _). pose proof (lk_vested_bounds _ (lk_now c) Hwf). unfold lk_safe, lk_unvested in Hs. lia.
+  - destruct vk.
+    + destruct m; cbn [negb] in E; [|discriminate]. destruct (negb (sg =? f)%N); [discriminate|]. inversion E; subst. cbn [lx_s lx_vesting].
+      exact (lk_step_safe c (LkAddGrant g st e l v) Hw Hs).
+    + destruct (lk_into_vesting c g st e l v) as [c' r'] eqn:E'. cbn [fst snd] in E.
+      destruct (N.eqb_spec r' LK_OK); [|inversion E; congruence]. subst r'. inversion E; subst. cbn [lx_s lx_vesting].
+      apply lk_into_vesting_ok in E' as (Hg & Hwf & ->). pose proof (lk_vested_bounds _ (lk_now c) Hwf) as Hv.
+      unfold lk_safe, lk_unvested in *. lk_proj. lia.
+  - destruct vk; cbn [negb] in E; [|discriminate]. destruct (negb (sg =? f)%N); [discriminate|]. destruct (sg =? nw)%N; inversion E; subst. exact Hs.
+Qed.
+
+Lemma lkx_step_tracked s o : lkx_wfs s -> lkx_tracked s -> lkx_is_slash o = false -> lkx_tracked (fst (lkx_step s o)).
+Proof.
+  intros Hw Ht Ho. destruct (lkx_step s o) as [s' r] eqn:E. cbn [fst].
+  destruct (N.eq_dec r LK_OK) as [->|Hr]; [|rewrite (lkx_step_g_fail _ _ _ _ _ E Hr); exact Ht].
+  destruct s as [c vk f]. unfold lkx_wfs, lkx_tracked, lkx_step in *.
+  destruct o as [o sg| |sg m g st e l v|sg nw]; cbn [lkx_step_g lx_s lx_vesting lx_funder lkx_is_slash] in *.
+  - destruct vk.
+    + destruct (lk_needs_funder o && negb (sg =? f)%N); [discriminate|]. inversion E; subst. cbn [lx_s lx_vesting].
+      apply lk_step_tracked; assumption.
+    + inversion E; subst. exact I.
+  - destruct vk; cbn [negb] in E; [|discriminate]. destruct (lk_convert_guard _ _ _); inversion E; subst. exact I.
+  - destruct vk.
+    + destruct m; cbn [negb] in E; [|discriminate]. destruct (negb (sg =? f)%N); [discriminate|]. inversion E; subst. cbn [lx_s lx_vesting].
+      exact (lk_step_tracked c (LkAddGrant g st e l v) Hw Ht eq_refl).
+    + destruct (lk_into_vesting c g st e l v) as [c' r'] eqn:E'. cbn [fst snd] in E.
+      destruct (N.eqb_spec r' LK_OK); [|inversion E; congruence]. subst r'. inversion E; subst. cbn [lx_s lx_vesting].
+      apply lk_into_vesting_ok in E' as (_ & _ & ->). unfold lk_tracked_le_actual. lk_proj. destruct (lk_bond c); lia.
+  - destruct vk; cbn [negb] in E; [|discriminate]. destruct (negb (sg =? f)%N); [discriminate|]. destruct (sg =? nw)%N; inversion E; subst. exact Ht.
+Qed.
+
+(** a merge / a conversion into a vesting account re-establishes "tracked = actual" *)
+Lemma lkx_grant_resets_tracking s o : lkx_wfs s -> lkx_is_grant o = true -> snd (lkx_step s o) = LK_OK -> lkx_tracked (fst (lkx_step s o)).
+Proof.
+  intros Hw Hg. destruct (lkx_step s o) as [s' r] eqn:E. cbn [fst snd]. intros ->.
+  destruct s as [c vk f]. unfold lkx_wfs, lkx_tracked, lkx_step in *.
+  destruct o as [o sg| |sg m g st e l v|sg nw]; cbn [lkx_step_g lx_s lx_vesting lx_funder lkx_is_grant] in *; try discriminate Hg.
+  - destruct vk.
+    + destruct (lk_needs_funder o && negb (sg =? f)%N); [discriminate|]. inversion E; subst. cbn [lx_s lx_vesting].
+      destruct o; try discriminate Hg. cbn [lk_step] in *.
+      destruct (lk_add_grant c g start' end' lockup' vesting') as [c' r'] eqn:E'. cbn [fst snd] in *. subst r'.
+      exact (lk_grant_resets_tracking _ _ _ _ _ _ _ Hw E').
+    + inversion E; subst. exact I.
+  - destruct vk.
+    + destruct m; cbn [negb] in E; [|discriminate]. destruct (negb (sg =? f)%N); [discriminate|]. inversion E; subst. cbn [lx_s lx_vesting].
+      destruct (lk_add_grant c g st e l v) as [c' r'] eqn:E'. cbn [fst snd] in *. subst r'.
+      exact (lk_grant_resets_tracking _ _ _ _ _ _ _ Hw E').
+    + destruct (lk_into_vesting c g st e l v) as [c' r'] eqn:E'. cbn [fst snd] in E.
+      destruct (N.eqb_spec r' LK_OK); [|inversion E; congruence]. subst r'. inversion E; subst. cbn [lx_s lx_vesting].
+      apply lk_into_vesting_ok in E' as (_ & _ & ->). unfold lk_tracked_le_actual. lk_proj. destruct (lk_bond c); lia.
+Qed.
+
+Lemma lkx_run_cons o ops s : lkx_run (o :: ops) s = lkx_run ops (fst (lkx_step s o)).
+Proof. reflexivity. Qed.
+
+Lemma lkx_run_wfs ops : forall s, lkx_wfs s -> lkx_wfs (lkx_run ops s).
+Proof. induction ops as [|o r IH]; intros s H; [exact H|]. rewrite lkx_run_cons. apply IH, lkx_step_wfs, H. Qed.
+
+Lemma lkx_run_safe ops : forall s, lkx_wfs s -> lkx_safe s -> lkx_safe (lkx_run ops s).
+Proof.
+  induction ops as [|o r IH]; intros s Hw Hs; [exact Hs|]. rewrite lkx_run_cons.
+  apply IH; [apply lkx_step_wfs, Hw|apply lkx_step_safe; assumption].
+Qed.
+
+Fixpoint lkx_no_grant_after_slash (dirty : bool) (ops : list lkx_op) : bool :=
+  match ops with
+  | [] => true
+  | o :: r => if lkx_is_grant o then negb dirty && lkx_no_grant_after_slash false r
+              else lkx_no_grant_after_slash (dirty || lkx_is_slash o) r
+  end.
+
+Lemma lkx_run_inv_gen ops : forall dirty s, lkx_wfs s -> lkx_inv s -> (dirty = false -> lkx_tracked s) ->
+  lkx_no_grant_after_slash dirty ops = true -> lkx_inv (lkx_run ops s).
+Proof.
+  induction ops as [|o r IH]; intros dirty s Hw Hi Ht Hn; [exact Hi|]. rewrite lkx_run_cons.
+  cbn [lkx_no_grant_after_slash] in Hn. destruct (lkx_is_grant o) eqn:Hg.
+  - apply andb_true_iff in Hn as [Hd Hn]. apply negb_true_iff in Hd. specialize (Ht Hd).
+    apply (IH false); [apply lkx_step_wfs, Hw|apply lkx_step_inv; auto| |exact Hn].
+    intros _. destruct (N.eq_dec (snd (lkx_step s o)) LK_OK) as [Hok|Hr].
+    + apply lkx_grant_resets_tracking; assumption.
+    + destruct (lkx_step s o) as [s' rr] eqn:E. cbn [fst snd] in *. rewrite (lkx_step_g_fail _ _ _ _ _ E Hr). exact Ht.
+  - apply (IH (dirty || lkx_is_slash o)); [apply lkx_step_wfs, Hw| |  |exact Hn].
+    + apply lkx_step_inv; auto. rewrite Hg. discriminate.
+    + intros Hd. apply orb_false_iff in Hd as [Hd Hs]. apply lkx_step_tracked; auto.
+Qed.
+
+Lemma lkx_run_inv_partial ops s : lkx_wfs s -> lkx_inv s -> lkx_tracked s ->
+  lkx_no_grant_after_slash false ops = true -> lkx_inv (lkx_run ops s).
+Proof. intros Hw Hi Ht Hn. apply (lkx_run_inv_gen ops false s); auto. Qed.
+
+(** what [lkx_inv] says about a converted account, spelled out: at the current and at every later block
+    time the schedule the conversion discarded locks nothing, has nothing unvested and nothing locked up, the
+    bank-facing locked amount of that record is 0 whatever delegation it tracks, and the balance is not negative:
+    "balance >= locked" holds for the converted account as if it had not been converted *)
+Lemma lkx_inv_plain_forever s t : lkx_wfs s -> lkx_inv s -> lx_vesting s = false -> lk_now (lx_s s) <= t ->
+  let a := lk_a (lx_s s) in
+  lk_sched_locked a t = 0 /\ lk_unvested a t = 0 /\ lk_locked_up a t = 0 /\ lk_locked_coins a t = 0 /\
+  lk_locked_coins a t <= lk_bal (lx_s s).
+Proof.
+  intros Hw Hi Hv Ht. unfold lkx_inv in Hi. rewrite Hv in Hi. destruct Hi as [Hb Hz]. destruct Hw as (Hwf & Hdf & Hdv & _).
+  destruct (lk_sched_zero_forever _ _ t Hwf Hz Ht) as (H1 & H2 & H3 & H4). specialize (H4 ltac:(lia)).
+  cbv zeta. repeat split; try assumption. lia.
+Qed.
+
+(** every successful conversion inside ANY history happens at a state whose schedule locks nothing *)
+Lemma lkx_convert_in_history pre s s' : lkx_wfs s -> lkx_step (lkx_run pre s) LxConvert = (s', LK_OK) ->
+  let c := lx_s (lkx_run pre s) in
+  lk_unvested (lk_a c) (lk_now c) = 0 /\ lk_locked_up (lk_a c) (lk_now c) = 0 /\
+  (forall t, lk_now c <= t -> lk_sched_locked (lk_a c) t = 0 /\ lk_locked_coins (lk_a c) t = 0).
+Proof.
+  intros Hw E. pose proof (lkx_run_wfs pre s Hw) as (Hwf & Hdf & Hdv & _).
+  apply lkx_convert_ok in E as (_ & Hu & Hl & Hz & _). cbv zeta. split; [exact Hu|]. split; [exact Hl|].
+  intros t Ht. destruct (lk_sched_zero_forever _ _ t Hwf Hz Ht) as (H1 & _ & _ & H4). split; [exact H1|]. apply H4. lia.
+Qed.
+
+Definition lkx_fresh (orig : Z) (lockup vesting : list lk_period) (start endt extra now : Z) (bond : bool) : lkx_state :=
+  mklkx (lk_fresh orig lockup vesting start endt extra now bond) true 0%N.
+
+Lemma lkx_fresh_ok orig lockup vesting start endt extra now bond :
+  lk_wf_b (mklka orig lockup vesting start endt 0 0) = true -> 0 <= extra ->
+  let s := lkx_fresh orig lockup vesting start endt extra now bond in
+  lkx_wfs s /\ lkx_inv s /\ lkx_safe s /\ lkx_tracked s.
+Proof. intros Hwf He. exact (lk_fresh_ok orig lockup vesting start endt extra now bond Hwf He). Qed.
+
+(** * the refutation: the conversion guard computed from the bank-facing locked amount.
+    1000 coins, vested after 1000 s, locked up for 100 days; at t = 2000 the whole grant is delegated
+    (allowed: vested), LockedCoins = 1000 - min(1000, 1000) = 0, the conversion goes through, and after
+    undelegation + unbonding the coins leave a plain account 8 638 000 s before the lock-up ends. *)
+Definition lkx_ex_start : lkx_state := lkx_fresh 1000 [(8640000, 1000)] [(1000, 1000)] 0 8640000 0 2000 true.
+Definition lkx_escape_witness : list lkx_op :=
+  [LxBase (LkDelegate 1000) 0%N; LxConvert; LxBase (LkUndelegate 1000) 0%N; LxBase (LkAdvance 400) 0%N;
+   LxBase (LkComplete 1000) 0%N; LxBase (LkSend 1000) 0%N].
+
+Definition lkx_results (gd : lk_guard) (ops : list lkx_op) (s : lkx_state) : list N :=
+  map (fun k => snd (lkx_step_g gd (lkx_run_g gd (firstn k ops) s) (nth k ops LxConvert))) (seq 0 (length ops)).
+
+Example lkx_bank_guard_refuted :
+  let s := lkx_run_g LkGuardBank lkx_escape_witness lkx_ex_start in
+  lkx_wfs lkx_ex_start /\ lkx_inv lkx_ex_start /\ lkx_tracked lkx_ex_start /\
+  lkx_no_grant_after_slash false lkx_escape_witness = true /\
+  lkx_results LkGuardBank lkx_escape_witness lkx_ex_start = [LK_OK; LK_OK; LK_OK; LK_OK; LK_OK; LK_OK] /\
+  lx_vesting s = false /\ lk_bal (lx_s s) = 0 /\ lk_now (lx_s s) = 2400 /\
+  lk_locked_up (lk_a (lx_s s)) 2400 = 1000 /\ lk_sched_locked (lk_a (lx_s s)) 2400 = 1000 /\ ~ lkx_inv s /\
+  (* the code's guard refuses the conversion and the last debit *)
+  lkx_results LkGuardSchedule lkx_escape_witness lkx_ex_start = [LK_OK; LK_LOCKED; LK_OK; LK_OK; LK_OK; LK_INSUFFICIENT] /\
+  lk_bal (lx_s (lkx_run lkx_escape_witness lkx_ex_start)) = 1000 /\ lkx_inv (lkx_run lkx_escape_witness lkx_ex_start).
+Proof.
+  cbv zeta. destruct (lkx_fresh_ok 1000 [(8640000, 1000)] [(1000, 1000)] 0 8640000 0 2000 true eq_refl ltac:(lia)) as (H1 & H2 & _ & H4).
+  split; [exact H1|]. split; [exact H2|]. split; [exact H4|].
+  repeat split; try (vm_compute; reflexivity).
+  - unfold lkx_inv, lkx_plain_ok. vm_compute. intros [_ H]. discriminate H.
+  - apply lkx_run_inv_partial; try assumption. reflexivity.
+Qed.
+
+(** non-vacuity: the same account; a conversion attempt inside the lock-up fails, after the lock-up end it
+    succeeds with the stake still bonded, the plain account spends everything it has, is converted into a
+    vesting account again (DelegatedFree := the 1000 still staked), the funder is changed, the old funder's
+    clawback is refused, the new funder's goes through *)
+Definition lkx_ex2_history : list lkx_op :=
+  [LxBase (LkDelegate 600) 0%N; LxConvert; LxBase (LkAdvance 8638000) 0%N; LxConvert; LxBase (LkSend 400) 0%N;
+   LxBase (LkClawback [] 0) 0%N;
+   LxConvertInto 1%N false 500 8640000 8640200 [(200, 500)] [(100, 250); (100, 250)];
+   LxBase (LkSend 1) 1%N; LxConvert; LxBase (LkAdvance 150) 0%N; LxUpdateFunder 1%N 2%N;
+   LxBase (LkClawback [(200, 250)] 8640200) 1%N; LxBase (LkClawback [(200, 250)] 8640200) 2%N;
+   LxBase (LkAdvance 100) 0%N; LxConvert].
+
+Example lkx_ex2_runs :
+  lkx_results LkGuardSchedule lkx_ex2_history lkx_ex_start =
+    [LK_OK; LK_LOCKED; LK_OK; LK_OK; LK_OK; LK_NOTVESTING; LK_OK; LK_INSUFFICIENT; LK_LOCKED; LK_OK; LK_OK;
+     LK_UNAUTHORIZED; LK_OK; LK_OK; LK_OK] /\
+  lkx_no_grant_after_slash false lkx_ex2_history = true /\
+  lkx_inv (lkx_run lkx_ex2_history lkx_ex_start) /\ lkx_safe (lkx_run lkx_ex2_history lkx_ex_start) /\
+  lx_vesting (lkx_run lkx_ex2_history lkx_ex_start) = false /\ lk_bal (lx_s (lkx_run lkx_ex2_history lkx_ex_start)) = 250.
+Proof.
+  destruct (lkx_fresh_ok 1000 [(8640000, 1000)] [(1000, 1000)] 0 8640000 0 2000 true eq_refl ltac:(lia)) as (H1 & H2 & H3 & H4).
+  split; [vm_compute; reflexivity|]. split; [reflexivity|].
+  split; [apply lkx_run_inv_partial; try assumption; reflexivity|].
+  split; [apply lkx_run_safe; assumption|]. split; vm_compute; reflexivity.
+Qed.
+
+Lemma lk_locked_le_sched_full a t : lk_wf_b a = true -> 0 <= lk_df a + lk_dv a ->
+  0 <= lk_locked_coins a t <= lk_sched_locked a t /\ lk_sched_locked a t = Z.max (lk_locked_up a t) (lk_unvested a t).
+Proof. intros H Hd. exact (conj (lk_locked_le_sched a t H Hd) (lk_sched_locked_eq_max a t)). Qed.
+
+Lemma lkx_run_inv_wfs_partial ops s : lkx_wfs s -> lkx_inv s -> lkx_tracked s ->
+  lkx_no_grant_after_slash false ops = true -> lkx_inv (lkx_run ops s) /\ lkx_wfs (lkx_run ops s).
+Proof. intros Hw Hi Ht Hn. exact (conj (lkx_run_inv_partial ops s Hw Hi Ht Hn) (lkx_run_wfs ops s Hw)). Qed.
+
+Lemma lkx_run_safe_wfs ops s : lkx_wfs s -> lkx_safe s -> lkx_safe (lkx_run ops s) /\ lkx_wfs (lkx_run ops s).
+Proof. intros Hw Hs. exact (conj (lkx_run_safe ops s Hw Hs) (lkx_run_wfs ops s Hw)). Qed.
+
 (** * statements as used in Props/C08.v *)
 Lemma lk_locked_eq_max_wf_full a t : lk_wf_b a = true ->
   lk_locked_coins a t = Z.max (lk_orig a - lk_unlocked_vested a t - (lk_df a + lk_dv a)) (lk_unvested a t)
